@@ -143,7 +143,8 @@ def run_scenario(case):
                 try:
                     r = R.mlr(argv, stdin=spec.get("stdin", b""), files=spec.get("files"), cwd=cwd, env=env,
                               trace=True, wrapper=wrapper, watchdog=60 if case["tier"] == "quick" else 120,
-                              nofile=spec.get("nofile", 1024), **kw)
+                              nofile=spec.get("nofile", 1024), binary=("mlr-race" if case.get("race") and not wrapper else "mlr-verif"),
+                              cpu_s=(90 if case.get("race") else 20), **kw)
                 finally:
                     if spec.get("stdout") == "closedpipe":
                         os.close(wfd)
@@ -175,6 +176,15 @@ def run_scenario(case):
                       "stdout_kind": spec.get("stdout", "file"), "strace": spec.get("strace")}
             if r.verdict == "slow":
                 res.setdefault("slow_cases", []).append([sc["kind"], sc["sub"], str(sc.get("pos")), vname, mode, round(r.wall, 1)])
+            if case.get("race") and r.race_reports:
+                for rep in r.race_reports:
+                    for blk in rep.split("WARNING: DATA RACE")[1:]:
+                        if "github.com/johnkerl/miller" in blk:
+                            bump(res, "race_reports")
+                            add_violation(res, {"fault": sc["kind"], "sub": sc["sub"], "kind": "data-race-on-error-path"},
+                                          f"[{sc['kind']}/{sc['sub']} {vname}] data race reported on the error path", dict(detail, report=blk[:4000]))
+            if case.get("race"):
+                bump(res, "race_detector_runs")
             if mode == "fault":
                 bump(res, "fault_runs")
                 judge_fault(res, r, sc, vname, detail)
@@ -544,6 +554,14 @@ def run(chk):
                 "begin/main/end) x schedule variants (batch sizes, GOMAXPROCS=1, perturbation seeds, forced 30 ms delay at each error/marker/done site). "
                 "Non-trivial = fault after at least one record was processed or in a chain/file position > 1; distinct = (kind, sub-kind, position)")
     chk.pmap(run_scenario, cases, label="fault grid")
+    # error paths are where unsynchronised shortcuts hide: the DSL-failure, inexpressible-output and write-failure families once more
+    # under the race detector (one schedule variant each in quick)
+    rsel = [s for s in S if s["kind"] in ("dsl-failure", "inexpressible-output", "write-failure") and not s.get("strace")]
+    rr = chk.rng("race-pass")
+    rr.shuffle(rsel)
+    rsel = rsel[: (40 if chk.quick() else 400)]
+    rcases = [{"sc": dict(s, no_variants=True, simultaneous=False), "seed": f"{chk.seed}/race/{i}", "tier": chk.tier, "race": True} for i, s in enumerate(rsel)]
+    chk.pmap(run_scenario, rcases, label="error paths under the race detector")
     kinds = {}
     for s in S:
         kinds.setdefault(s["kind"], set()).add(s["sub"])
